@@ -53,7 +53,8 @@ static void vlogf (int tid, const char *fmt, va_list ap) {
 	log_append (line, n);
 }
 /* set-up code that runs before the fibers start is logged as thread 99 */
-void vf_log (const char *fmt, ...) { va_list ap; va_start (ap, fmt); vlogf (vf_self () < 0 ? 99 : vf_self (), fmt, ap); va_end (ap); }
+static int log_tid (void);
+void vf_log (const char *fmt, ...) { va_list ap; va_start (ap, fmt); vlogf (log_tid (), fmt, ap); va_end (ap); }
 void vf_log_env (const char *fmt, ...) { va_list ap; va_start (ap, fmt); vlogf (-1, fmt, ap); va_end (ap); }
 void vf_flush_log (FILE *out) { if (loglen) { fwrite (logbuf, 1, loglen, out); } fflush (out); }
 
@@ -131,6 +132,7 @@ struct fiber {
 	long call_seq; int in_api;
 	int prio; int wait_on; /* F_WAIT_FIBER: runnable once fiber wait_on is asleep */
 	const volatile uint32_t *pend_wait; /* about to load its `waiting` flag in the wait loop of nsync_mu_lock_slow_ */
+	int log_alias; /* > 0: log this fiber's events under this thread id (a call made from inside a client callback is shown to the acceptors as another thread's call) */
 	/* futex */
 	int *fut_addr; int fut_woken; int fut_result; int fut_fault;
 };
@@ -146,6 +148,8 @@ static const size_t STACK_SIZE = 256 * 1024;
 #define INF_NS INT64_MAX
 
 int vf_self (void) { return (cur); }
+static int log_tid (void) { return (cur < 0 ? 99 : fibers[cur].log_alias > 0 ? fibers[cur].log_alias : cur); }
+void vf_log_alias (int tid) { if (cur >= 0) { fibers[cur].log_alias = tid; } }
 int64_t vf_now (void) { return (now_ns); }
 long vf_steps (void) { return (steps); }
 int vf_plain_sched (void) { return (cfg.plain_sched); }
@@ -208,6 +212,7 @@ static int pct_points[8]; static int pct_n; static int consec;
 /* strategy 4 (adversarial barging, C14): fiber 0 is the victim; it is scheduled only while the hook says the
    mutex is held by somebody else (so that every retry of the victim loses the race), or when nobody else can run */
 int (*vf_victim_may_run_hook) (void);
+int (*vf_lazy_release_hook) (void);
 void (*vf_sem_sleep_hook) (int tid);
 void (*vf_requeue_hook) (int tid); /* a thread marks its waiter record `waiting` inside nsync_mu_lock_slow_: one more lost race */
 
@@ -259,9 +264,17 @@ int vf_run (void) {
 			/* a spinning high-priority fiber must not starve the others: demote it after a long run */
 			if (pick == cur) { consec++; } else { consec = 0; }
 			if (nrun > 1 && (fibers[pick].quiet_ops > 6 || consec > 60)) { fibers[pick].prio = 0; consec = 0; } /* below every change-point priority */
-		} else if (cfg.strategy == 4 || cfg.strategy == 5) {
-			int others[MAXF]; int no = 0; int v_ok = 0;
-			for (i = 0; i != nrun; i++) { if (run[i] == 0) { v_ok = 1; } else { others[no++] = run[i]; } }
+		} else if (cfg.strategy == 4 || cfg.strategy == 5 || cfg.strategy == 6) {
+			int others[MAXF]; int no = 0; int v_ok = 0; int lazy = -1;
+			for (i = 0; i != nrun; i++) {
+				if (run[i] == 0) { v_ok = 1; }
+				/* strategy 6 = 4 plus a LATE LOOKER: fiber 1, once posted while asleep in a semaphore, stays parked there
+				   (as a descheduled thread would) until the hook says so (MU_LONG_WAIT published) or nobody else can run */
+				else if (cfg.strategy == 6 && run[i] == 1 && fibers[1].st == F_BLOCKED_SEM &&
+					 !(vf_lazy_release_hook != NULL && (*vf_lazy_release_hook) ())) { lazy = 1; }
+				else { others[no++] = run[i]; }
+			}
+			if (no == 0 && !v_ok && lazy >= 0) { others[no++] = lazy; }
 			/* strategy 5 = 4 plus EARLY WAKE-UPS: the victim, queued and about to read its `waiting` flag for the
 			   first time, is held back until an unlocker has dequeued and woken it, so it never reaches the
 			   semaphore wait in that round (the flag is already clear and the post is left pending) */
